@@ -1099,7 +1099,23 @@ func ConcPaths(fn *ssa.Function, cfg ConcCfg) (seqs []string, truncated bool) {
 					// a function literal handed to a callee that is not explored: invoke it 0..MaxIter times
 					var mk *ssa.MakeClosure
 					for _, a := range x.Call.Args {
-						if m, ok := a.(*ssa.MakeClosure); ok {
+						// the literal itself, or a parameter / variable that stands for one on this path
+						v := a
+						for k := 0; k < 12; k++ {
+							if _, isMk := v.(*ssa.MakeClosure); isMk {
+								break
+							}
+							if ct, isCT := v.(*ssa.ChangeType); isCT {
+								v = ct.X
+								continue
+							}
+							nx := st.alias[v]
+							if nx == nil {
+								break
+							}
+							v = nx
+						}
+						if m, ok := v.(*ssa.MakeClosure); ok {
 							if f, ok := m.Fn.(*ssa.Function); ok && len(f.Blocks) > 0 {
 								mk = m
 							}
